@@ -194,9 +194,16 @@ def opt_as_ref(I, args, callee):
     return Adt(o.name, o.variant, [])
 
 
-@model('Option::as_deref', 'Option::as_deref_mut')
+@model('Option::as_deref', 'Option::as_deref_mut', 'Result::as_deref', 'Result::as_deref_mut')
 def opt_as_deref(I, args, callee):
     o = opt(args[0])
+    if o.variant == 'Err':
+        return err(Ref(o.fields, 0))
+    if o.variant == 'Ok':
+        v = o.fields[0]
+        if type(v) is BoxV:
+            return ok(Ref(v.fields, 0))
+        return ok(as_slice(v))
     if o.variant == 'Some':
         v = o.fields[0]
         if type(v) is BoxV:
